@@ -87,6 +87,12 @@ theorem pubkey_65_accept (b : List UInt8) (q : Point) (hl : b.length = 65) (h : 
       (fmt = 0x06 → fromBE (body.drop 32) % 2 = 0) ∧ (fmt = 0x07 → fromBE (body.drop 32) % 2 = 1) :=
   Parsers.parsePubKey_65 b q hl h
 
+/-- serialise ∘ parse = id on every accepted compressed key (02 / 03): the parser returns the root with the
+    requested parity. (parse ∘ serialise = id for compressed keys needs correctness of the square root,
+    i.e. primality of p — covered by the differential run only.) -/
+theorem pubkey_compressed_roundtrip (b : List UInt8) (q : Point) (hl : b.length = 33)
+    (h : parsePubKey b = some q) : serializeCompressed q = b := Parsers.serializeCompressed_parse b q hl h
+
 /-- compressed / x-only keys: x ≥ p is rejected, and the result is (x, ±sqrt(x³+7)). -/
 theorem pubkey_decompress_spec (x : Nat) (odd : Bool) (q : Point) (h : decompress x odd = some q) :
     x < p ∧ ∃ y0, fsqrt ((x * x % p * x + curveB) % p) = some y0 ∧
